@@ -78,15 +78,7 @@ Record ecase := mkCase {
 
 Definition merged_of (c : ecase) : rules_map := linter_config (ec_provided c) (ec_user c) (ec_custom c).
 
-Definition model_can_report (c : ecase) : bool :=
-  if ec_is_custom c then custom_can_report (ec_params c) (merged_of c) (ec_cat c) (ec_title c) false
-  else builtin_can_report (ec_params c) (merged_of c) (ec_cat c) (ec_title c) false false.
-
-Definition model_reported (c : ecase) : option str :=
-  if model_can_report c then Some (violation_level (ec_params c) (merged_of c) (ec_cat c) (ec_title c))
-  else None.
-
-(* the model's account of every observed field, as one record *)
+(* the model's account of every observed field, as one record (the merged configuration is computed once) *)
 Definition model_obs (c : ecase) : obs :=
   let p := ec_params c in let m := merged_of c in
   let cat := ec_cat c in let title := ec_title c in
@@ -99,29 +91,30 @@ Definition model_obs (c : ecase) : obs :=
         (level_for_rule p e cat title) (rules_to_run_has p m cat title false)
         rep (ec_is_custom c && can) (if ec_is_custom c then rep else None).
 
-(* the model's account of every observed field *)
-Definition go_agrees (c : ecase) : bool :=
-  opt_str_eqb (ob_go_entry (ec_obs c)) (rule_level_of (merged_of c) (ec_cat c) (ec_title c)).
+Definition model_reported (c : ecase) : option str := ob_reported (model_obs c).
 
-Definition rego_agrees (c : ecase) : bool :=
-  let p := ec_params c in let m := merged_of c in let o := ec_obs c in
-  let e := entry_of m (ec_cat c) (ec_title c) in
-  Bool.eqb (ob_ignored o) (ignored_rule p e (ec_cat c) (ec_title c))
-  && Bool.eqb (ob_fd o) (force_disabled p (ec_cat c) (ec_title c))
-  && Bool.eqb (ob_fe o) (force_enabled p (ec_cat c) (ec_title c))
-  && str_eqb (ob_level o) (level_for_rule p e (ec_cat c) (ec_title c))
-  && Bool.eqb (ob_to_run o) (rules_to_run_has p m (ec_cat c) (ec_title c) false).
+Definition go_agrees_with (mo : obs) (c : ecase) : bool :=
+  opt_str_eqb (ob_go_entry (ec_obs c)) (ob_go_entry mo).
 
-Definition main_agrees (c : ecase) : bool :=
+Definition rego_agrees_with (mo : obs) (c : ecase) : bool :=
+  let o := ec_obs c in
+  Bool.eqb (ob_ignored o) (ob_ignored mo) && Bool.eqb (ob_fd o) (ob_fd mo) && Bool.eqb (ob_fe o) (ob_fe mo)
+  && str_eqb (ob_level o) (ob_level mo) && Bool.eqb (ob_to_run o) (ob_to_run mo).
+
+Definition main_agrees_with (mo : obs) (c : ecase) : bool :=
   let o := ec_obs c in
   negb (ec_triggered c) ||
-  (opt_str_eqb (ob_reported o) (model_reported c)
+  (opt_str_eqb (ob_reported o) (ob_reported mo)
    && (if ec_is_custom c
-       then Bool.eqb (ob_aggregated o) (model_can_report c)
-            && opt_str_eqb (ob_agg_reported o) (model_reported c)
+       then Bool.eqb (ob_aggregated o) (ob_aggregated mo) && opt_str_eqb (ob_agg_reported o) (ob_agg_reported mo)
        else true)).
 
-Definition case_agrees (c : ecase) : bool := go_agrees c && rego_agrees c && main_agrees c.
+Definition go_agrees (c : ecase) : bool := go_agrees_with (model_obs c) c.
+Definition rego_agrees (c : ecase) : bool := rego_agrees_with (model_obs c) c.
+Definition main_agrees (c : ecase) : bool := main_agrees_with (model_obs c) c.
+
+Definition case_agrees (c : ecase) : bool :=
+  let mo := model_obs c in go_agrees_with mo c && rego_agrees_with mo c && main_agrees_with mo c.
 
 (* the README specification evaluated on what was observed (not on the model).  Domain: the rule
    is a bundled rule with a provided level, or a loaded custom rule without one *)
